@@ -734,12 +734,18 @@ qb_vsnprintf_deserialize(char *string, size_t str_len, const char *buf)
 	for (;;) {
 		type_long = QB_FALSE;
 		type_longlong = QB_FALSE;
+		if (location >= str_len) {
+			/* output truncated, nothing more fits */
+			string[str_len - 1] = '\0';
+			return str_len;
+		}
+		string[location] = '\0';
 		p = strchrnul((const char *)format, '%');
 		if (*p == '\0') {
 			return my_strlcat(string, format, str_len) + 1;
 		}
-		/* copy from current to the next % */
-		len = p - format;
+		/* copy from current to the next %, leave room for the NUL */
+		len = QB_MIN(p - format, str_len - location - 1);
 		memcpy(&string[location], format, len);
 		location += len;
 		format = p;
@@ -749,6 +755,11 @@ qb_vsnprintf_deserialize(char *string, size_t str_len, const char *buf)
 		fmt[fmt_pos++] = *format;
 		format++;
 reprocess:
+		if (fmt_pos > MINI_FORMAT_STR_LEN - 2) {
+			/* no room left for the conversion and the NUL */
+			string[location] = '\0';
+			return location + 1;
+		}
 		switch (format[0]) {
 		case '#': /* alternate form conversion, ignore */
 		case '-': /* left adjust, ignore */
